@@ -673,3 +673,142 @@ def report_resolution(ctx, rule):
         ctx.fail(rule, f, f.node, "depends model (path resolution): %s (%d disagreeing case(s))" % (problems[0], len(problems)), key=f.qualname + "::path-resolution")
     else:
         ctx.ok(rule, f, f.node, "depends model: %d (path, detached link) cases: every parameter on the path whose holder exists is among the parameters to watch, the leaves iff the whole path is attached" % n)
+
+
+# --------------------------------------------------------------------------------------------------
+# (e) the function form: depends(<Parameter objects>, watch=True)(func)
+# --------------------------------------------------------------------------------------------------
+def function_form(ctx):
+    """param.depends interpreted for a function with Parameter-object dependencies given in interleaved order
+    (a.x, b.y, a.z positional, w=a.w as keyword), watch=True.  Specification: exactly one watcher per owner object,
+    watching all of that owner's dependency names, all with the same callback (so that one update / batch changing
+    several of them runs the function once); _dinfo records dependencies / kw / watch / on_init."""
+    f = ctx.repo.func("param.depends.depends")
+    problems, n = [], 0
+    for order in (("ax", "by", "az"), ("ax", "az", "by"), ("by", "ax", "az")):
+        A, B = Obj("object_a"), Obj("object_b")
+        for o in (A, B):
+            o.attrs["param"] = Obj("namespace_of_" + o.name, owner_obj=o)
+        P_ = {"ax": Obj("a.param.x", owner=A, name="x", __kind__="Parameter"), "az": Obj("a.param.z", owner=A, name="z", __kind__="Parameter"),
+              "by": Obj("b.param.y", owner=B, name="y", __kind__="Parameter"), "aw": Obj("a.param.w", owner=A, name="w", __kind__="Parameter")}
+        func = Obj("user_function", __callable__=True)
+        watched = []
+
+        def hook(fn, args, kwargs):
+            recv = getattr(hook.it, "current_receiver", None)
+            if fn == "transform_reference" and args:
+                return args[0]
+            if fn in ("inspect.isgeneratorfunction", "inspect.isasyncgenfunction", "iscoroutinefunction"):
+                return False
+            if fn == "isinstance" and len(args) == 2:
+                subj, spec = args
+                if spec == "<type str>":
+                    return isinstance(subj, str)
+                if isinstance(subj, Obj) and subj.attrs.get("__kind__") == "Parameter":
+                    return spec in ("Parameter", "<Parameter>")
+                if subj is A or subj is B:
+                    return spec in ("Parameterized", "<Parameterized>")
+                return False
+            if fn == "hasattr" and len(args) == 2:
+                return isinstance(args[0], Obj) and args[1] in args[0].attrs
+            if fn == "wraps":
+                return PyFunc("wraps_decorator", lambda g: g)
+            if fn.endswith(".param.watch") and len(args) >= 2:
+                watched.append((recv.attrs.get("owner_obj") if isinstance(recv, Obj) else None, args[0], list(args[1]) if isinstance(args[1], (list, tuple)) else args[1]))
+                return Obj("watcher")
+            return NotImplemented
+        hook.needs_receiver = True
+        it = Interp(ctx.hier, call_hook=hook, globals={"Parameter": "Parameter", "Parameterized": "Parameterized", "ParameterizedMetaclass": "ParameterizedMetaclass"})
+        hook.it = it
+        try:
+            outs = it.run_all(f, {"func": func, "dependencies": tuple(P_[k] for k in order), "watch": True, "on_init": False, "kw": {"w": P_["aw"]}})
+        except Unsupported as e:
+            raise AnalysisError("depends model: absint cannot interpret param.depends (function form): %s" % e)
+        if len(outs) != 1 or outs[0].imprecise or outs[0].kind != "return":
+            raise AnalysisError("depends model: param.depends is not interpretable precisely (%s)" % (outs[0].notes[:2] if outs else "no outcome"))
+        n += 1
+        desc = "depends(%s, w=a.param.w, watch=True)" % ", ".join(P_[k].name for k in order)
+        for owner, want_names in ((A, [P_[k].attrs["name"] for k in order if k[0] == "a"] + ["w"]), (B, ["y"])):
+            mine = [w for w in watched if w[0] is owner]
+            if len(mine) != 1:
+                problems.append("%s installs %d watcher(s) on %s, specification one: an update or batch that changes two of its parameters runs the function %s" % (
+                    desc, len(mine), owner.name, "once per watcher" if mine else "never"))
+            elif sorted(mine[0][2]) != sorted(want_names):
+                problems.append("%s: the watcher on %s watches %s, specification %s" % (desc, owner.name, mine[0][2], want_names))
+        if len({id(w[1]) for w in watched}) > 1:
+            problems.append("%s: the watchers do not share one callback" % desc)
+    return n, problems
+
+
+def report_function_form(ctx, rule):
+    n, problems = function_form(ctx)
+    f = ctx.repo.func("param.depends.depends")
+    ctx.abstract_cases += n
+    if problems:
+        ctx.fail(rule, f, f.node, "depends model (function form): %s (%d disagreeing case(s))" % (problems[0], len(problems)), key=f.qualname + "::function-form")
+    else:
+        ctx.ok(rule, f, f.node, "depends model: the function form installs exactly one watcher per owner object for interleaved Parameter dependencies (%d orders)" % n)
+
+
+# --------------------------------------------------------------------------------------------------
+# (f) method-name recursion: _params_depended_on
+# --------------------------------------------------------------------------------------------------
+def method_recursion(ctx):
+    """_params_depended_on interpreted for a method m declared depends(<direct specs>, 'helper') where helper is another
+    method with its own dependencies -- among them a slot of a parameter whose VALUE m also depends on directly, in either
+    order, and a dynamic (sub-object) spec.  Specification: the result covers every (parameter, what) pair that m or
+    helper (transitively) names -- 'a' and 'a:bounds' are different dependencies -- and every dynamic spec; a method
+    without a declaration depends on every parameter of the class."""
+    f = ctx.repo.func(P + "_params_depended_on")
+    problems, n = [], 0
+    cls = Obj("Cls")
+    pinfo = lambda name, what="value": Obj("PInfo(%s:%s)" % (name, what), inst=None, cls=cls, name=name, what=what, __kind__="PInfo")
+    A_VAL, A_BND, B_VAL, C_VAL = pinfo("a"), pinfo("a", "bounds"), pinfo("b"), pinfo("c")
+    DYN = Obj("DInfo(sub.x)", spec="sub.x")
+    for order in (("a", "helper"), ("helper", "a"), ("b", "helper", "a")):
+        helper_method = Obj("helper_function", _dinfo={"dependencies": ["a:bounds", "c", "sub.x"], "watch": False})
+        helper = Obj("MInfo(helper)", inst=None, cls=cls, name="helper", method=helper_method, __kind__="MInfo")
+        m_method = Obj("m_function", _dinfo={"dependencies": list(order), "watch": True})
+        minfo = Obj("MInfo(m)", inst=None, cls=cls, name="m", method=m_method, __kind__="MInfo")
+        table = {"a": ([A_VAL], []), "b": ([B_VAL], []), "c": ([C_VAL], []), "a:bounds": ([A_BND], []), "helper": ([helper], []), "sub.x": ([], [DYN])}
+        cls.attrs["param"] = Obj("class_namespace", __iter__=["a", "b", "c"])
+
+        def hook(fn, args, kwargs):
+            if fn.endswith(".param._spec_to_obj") and args and args[0] in table:
+                d, dd = table[args[0]]
+                return (list(d), list(dd))
+            if fn == "isinstance" and len(args) == 2:
+                return isinstance(args[0], Obj) and args[0].attrs.get("__kind__") == "PInfo"
+            return NotImplemented
+        it = Interp(ctx.hier, call_hook=hook, inline_module_functions=True, globals={"PInfo": "PInfo"})
+        try:
+            outs = it.run_all(f, {"minfo": minfo, "dynamic": True, "intermediate": True})
+        except Unsupported as e:
+            raise AnalysisError("depends model: absint cannot interpret _params_depended_on: %s" % e)
+        if len(outs) != 1 or outs[0].imprecise or outs[0].kind != "return" or not (isinstance(outs[0].value, tuple) and len(outs[0].value) == 2):
+            raise AnalysisError("depends model: _params_depended_on is not interpretable precisely (%s)" % (outs[0].notes[:2] if outs else "no outcome"))
+        n += 1
+        deps, dyn = outs[0].value
+        if not isinstance(deps, list) or not isinstance(dyn, list):
+            raise AnalysisError("depends model: _params_depended_on returns something the model cannot read (%r)" % (outs[0].value,))
+        desc = "m declared depends(%s, watch=True) with helper declared depends('a:bounds', 'c', 'sub.x')" % ", ".join(repr(x) for x in order)
+        want = [A_VAL, A_BND, C_VAL] + ([B_VAL] if "b" in order else [])
+        for w in want:
+            if not any(d is w for d in deps):
+                problems.append("%s: the dependency on %s:%s is lost (m is never called when it changes)" % (desc, w.attrs["name"], w.attrs["what"]))
+        extra = [d for d in deps if not any(d is w for w in want)]
+        if extra:
+            problems.append("%s: unexpected dependencies %s" % (desc, [x.name for x in extra]))
+        if not any(d is DYN for d in dyn):
+            problems.append("%s: the dynamic dependency of the helper ('sub.x') is lost" % desc)
+    return n, problems
+
+
+def report_method_recursion(ctx, rule):
+    n, problems = method_recursion(ctx)
+    f = ctx.repo.func(P + "_params_depended_on")
+    ctx.abstract_cases += n
+    if problems:
+        ctx.fail(rule, f, f.node, "depends model (method-name recursion): %s (%d disagreeing case(s))" % (problems[0], len(problems)), key=f.qualname + "::method-recursion")
+    else:
+        ctx.ok(rule, f, f.node, "depends model: a dependency on another method brings in every (parameter, what) pair and dynamic spec that method names (%d orders)" % n)
